@@ -860,3 +860,47 @@ func c12BoolModifier(c *Ctx, rule string) {
 	})
 	c.Check(n >= 2, rule, "static comparison sites enumerated", fi.Decl.Pos(), itoa(n), "expected 2 calls of calculateStaticReturn, found "+itoa(n))
 }
+
+// c12PerNameInclusion: by(a, b) keeps each listed label that the inner
+// expression still has, independently of the others. In maybeIncludeLabel the
+// loop over the names therefore cannot be left early (return / break): one
+// label that was removed further inside must not keep the others from being
+// recorded, or the aggregation looks label-less and the other side of an
+// on(...) join is reported as dead.
+func c12PerNameInclusion(c *Ctx, rule string) {
+	fi := c.MustFunc(rule, "internal/parser/utils.maybeIncludeLabel")
+	if fi == nil {
+		return
+	}
+	info := fi.Pkg.TypesInfo
+	sig := fi.Obj.Type().(*types.Signature)
+	var namesP types.Object
+	if sig.Variadic() {
+		namesP = sig.Params().At(sig.Params().Len() - 1)
+	}
+	var loop *ast.RangeStmt
+	ast.Inspect(fi.Decl.Body, func(n ast.Node) bool {
+		if rs, ok := n.(*ast.RangeStmt); ok && isObj(info, rs.X, namesP) && loop == nil {
+			loop = rs
+		}
+		return true
+	})
+	if loop == nil {
+		c.Undecided(rule, "maybeIncludeLabel:loop over the names", fi.Decl.Pos(), "not found")
+		return
+	}
+	early := ""
+	inspectNoLit(loop.Body, func(m ast.Node) bool {
+		switch x := m.(type) {
+		case *ast.ReturnStmt:
+			early = "return"
+		case *ast.BranchStmt:
+			if x.Tok == token.BREAK || x.Tok == token.GOTO {
+				early = x.Tok.String()
+			}
+		}
+		return true
+	})
+	c.Check(early == "", rule, "maybeIncludeLabel:each name is decided on its own", loop.Pos(), "the loop over names is never left early",
+		"the loop over the by(...) labels is left with `"+early+"` as soon as one label is found excluded: the remaining labels are not recorded as included, the aggregation is treated as carrying none of them, and joins on those labels are reported as dead code")
+}
